@@ -19,7 +19,7 @@ import signal
 
 from simkit import core, loops
 from simkit import world as W
-from simkit.core import Livelock, Quiescent
+from simkit.core import BlockedForever, Livelock, Quiescent
 from simkit.runner import Engine, Result
 
 P = "C05"
@@ -371,6 +371,8 @@ class _Sched:
                                 lp.run()
                         else:
                             lp.run()
+                    except BlockedForever as e:
+                        self.violate("C05.1", f"read-blocks-for-ever loop={self.kind}", str(e))
                     except Quiescent:
                         self.violate("C05.1", f"loop-went-quiescent loop={self.kind}", "")
                     except Livelock as e:
@@ -387,6 +389,8 @@ class _Sched:
                             n_calls += 1
                             keys, raw = screen.get_input(raw_keys=True)
                             on_input(keys, raw)
+                    except BlockedForever as e:
+                        self.violate("C05.1", "read-blocks-for-ever mode=sync", str(e))
                     except Quiescent:
                         pass
                     except Livelock as e:
@@ -518,6 +522,20 @@ class InputEngine(Engine):
     required_probes = ("token_table_checked", "timeout_and_arrival_same_instant", "cut_inside_token")
     selftest_n = 1000
     reducible = ("schedules", "tokens")
+
+    def extra_scenarios(self, tier: str) -> list[dict]:
+        """Bursts: 1024, 2048 and 1023 / 1025 bytes (a paste, a flood of mouse reports) pending on the tty when the
+        display reads - whole, and cut once - on the select loop, two other loops and the synchronous path."""
+        out = []
+        up = {"k": "golden", "hex": "1b5b41", "exp": "up"}
+        a = {"k": "ascii", "hex": "61", "exp": "a"}
+        for total in (1024, 2048, 1023, 1025):
+            toks = [dict(up) for _ in range(total // 3)] + [dict(a) for _ in range(total % 3)]
+            schedules = [{"cuts": [], "gaps": [], "loop": "select", "cw": CW}, {"cuts": [999], "gaps": [TICK], "loop": "select", "cw": CW}, {"cuts": [], "gaps": [], "loop": "select", "cw": CW, "mode": "sync"}]
+            if total == 1024:
+                schedules += [{"cuts": [], "gaps": [], "loop": "asyncio", "cw": CW, "tiebreak": [0] * 6}, {"cuts": [], "gaps": [], "loop": "zmq", "cw": CW, "tiebreak": [0] * 6}]
+            out.append({"config": {"enc": "utf8"}, "tokens": toks, "schedules": schedules})
+        return out
 
     def generate(self, rng: random.Random, tier: str) -> dict:
         enc = rng.choice(["utf8", "utf8", "wide", "narrow"])
